@@ -290,6 +290,16 @@ impl Space for TimeDiff {
             let g = call(|| pa.since(&pb, diff(ui, None, None, None)));
             out.lockstep("PlainTime::since", &Ok(balanced_fields(a - b, um)), &g, fields_eq, attrs);
         }
+        // day and calendar units are refused, as largest and as smallest unit, whatever the operands
+        for (u, uname) in [(Unit::Day, "day"), (Unit::Week, "week"), (Unit::Month, "month"), (Unit::Year, "year")] {
+            for (l, sm, pos) in [(Some(u), None, "largest"), (None, Some(u), "smallest"), (Some(u), Some(Unit::Second), "largest over seconds")] {
+                let attrs = || vec![("a", hms(a)), ("b", hms(b)), ("unit", uname.to_string()), ("position", pos.to_string()), ("equal_operands", (a == b).to_string())];
+                let g = call(|| pa.until(&pb, diff(l, sm, None, None)));
+                out.lockstep("PlainTime::until refuses day and calendar units", &Err::<(), _>(ErrorKind::Range), &g.map(|_| ()), |_, _| true, attrs);
+                let g = call(|| pa.since(&pb, diff(l, sm, None, None)));
+                out.lockstep("PlainTime::since refuses day and calendar units", &Err::<(), _>(ErrorKind::Range), &g.map(|_| ()), |_, _| true, attrs);
+            }
+        }
         if out.want_sample() && b < a {
             out.sample(json!({"a": hms(a), "b": hms(b), "model_until_ns": (b - a).to_string()}));
         }
@@ -336,6 +346,15 @@ impl Space for InstantDiff {
                 // round trip: b.add(a.since(b)) = a
                 let back = call(|| ib.add(*d));
                 out.lockstep("b.add(a.since(b))", &Ok(a), &back, |m, x| x.epoch_nanoseconds().as_i128() == *m, attrs);
+            }
+        }
+        for (u, uname) in [(Unit::Day, "day"), (Unit::Week, "week"), (Unit::Month, "month"), (Unit::Year, "year")] {
+            for (l, sm, pos) in [(Some(u), None, "largest"), (None, Some(u), "smallest"), (Some(u), Some(Unit::Second), "largest over seconds")] {
+                let attrs = || vec![("a", a.to_string()), ("b", b.to_string()), ("unit", uname.to_string()), ("position", pos.to_string()), ("equal_operands", (a == b).to_string())];
+                let g = call(|| ia.until(&ib, diff(l, sm, None, None)));
+                out.lockstep("Instant::until refuses day and calendar units", &Err::<(), _>(ErrorKind::Range), &g.map(|_| ()), |_, _| true, attrs);
+                let g = call(|| ia.since(&ib, diff(l, sm, None, None)));
+                out.lockstep("Instant::since refuses day and calendar units", &Err::<(), _>(ErrorKind::Range), &g.map(|_| ()), |_, _| true, attrs);
             }
         }
         if out.want_sample() && a > b {
